@@ -63,7 +63,7 @@ Inf == 1000
 NoLim == [k \in Classes |-> None]
 Base == [maxAtt |-> 3, lim |-> NoLim, maxUnk |-> None, D |-> Inf, hasDefault |-> TRUE,
          strat |-> {}, legacy |-> {}, budget |-> None, bW |-> 100000, handler |-> FALSE, abort |-> FALSE,
-         rc |-> FALSE, bsleep |-> FALSE, opname |-> TRUE, hooks |-> FALSE]
+         rc |-> FALSE, bsleep |-> FALSE, opname |-> TRUE, hooks |-> FALSE, adaptive |-> {}]
 
 Val(n) == [kind |-> "val", v |-> n]
 Out(o, k, ra) == [out |-> o, k |-> k, ra |-> ra]
@@ -165,7 +165,9 @@ ConfigsC05 ==
         tb \in TablesC05, ha \in BOOLEAN }
 ConfigsC05x ==
     { [Base EXCEPT !.maxAtt = 3, !.rc = TRUE, !.D = 10, !.hasDefault = tb[1], !.strat = tb[2],
-                   !.legacy = tb[3], !.handler = ha, !.bsleep = ha] :
+                   !.legacy = tb[3], !.handler = ha, !.bsleep = ha,
+                   \* with a handler: the context-style strategies also take outcome reports
+                   !.adaptive = IF ha THEN ({"default"} \cup tb[2]) \ tb[3] ELSE {}] :
         tb \in TablesC05, ha \in BOOLEAN }
 
 \* ---- C12 / C15: every dimension at small values -------------------------------
@@ -267,7 +269,7 @@ ConfigsFull ==
                    !.lim = [NoLim EXCEPT ![T] = lt],
                    !.hasDefault = st[1], !.strat = st[2], !.legacy = st[3],
                    !.budget = bu, !.bW = 3, !.handler = ha, !.bsleep = bs, !.abort = ab, !.opname = op,
-                   !.hooks = bs] :
+                   !.hooks = bs, !.adaptive = IF ab THEN ({"default"} \cup st[2]) \ st[3] ELSE {}] :
         ma \in {2, 3, 4}, lt \in {None, 1}, mu \in {None, 1}, d \in {3, 6, Inf},
         st \in {<<TRUE, {}, {}>>, <<TRUE, {T}, {"default"}>>, <<FALSE, {T, U, P}, {U}>>},
         bu \in {None, 1, 2}, ha \in BOOLEAN, bs \in BOOLEAN, ab \in BOOLEAN, op \in BOOLEAN }
